@@ -42,6 +42,7 @@ def build(m):
         s.output_time = TieredTime(d["OT"])
         s.is_in_step = bool(d.get("in_step"))
         s.from_world_time = TieredInterval(d.get("fwt", 0), cutoff=1, pre_length=1)
+        s._verif_begun = TieredTime(d["begun"]) if d.get("begun") is not None else None   # ghost
         s.triggering_ancestors = {sims[b]: TieredInterval(v) for b, v in d["TA"].items()}
         s.input_delays = {sims[b]: TieredInterval(v) for b, v in d["ID"].items()}
         s.successors = {sims[b]: TieredInterval(v) for b, v in d["SU"].items()}
@@ -73,8 +74,18 @@ def inv_violations(world, sims):
                     bad.append(f"I3: {n}.progress {P!r} > pending step {x!r} of triggering ancestor {b.sid} + {d!r}")
         if not P <= TieredTime(world.until) + s.from_world_time:
             bad.append(f"I4: {n}.progress {P!r} > until {world.until}")
-        if len(set(s.next_steps)) != len(s.next_steps):
-            pass
+        bg = getattr(s, "_verif_begun", None)
+        if bg is not None:
+            for p_, d in s.input_delays.items():
+                if not bg < p_.progress.time + d:
+                    bad.append(f"J': {n} began {bg!r} but its input {p_.sid} has only progressed to {p_.progress.time!r} (+{d!r})")
+            for x in s.next_steps:
+                if not bg < x:
+                    bad.append(f"K: {n} began {bg!r} but still has step {x!r} scheduled")
+            if not bg <= P:
+                bad.append(f"BG: {n} began {bg!r} > progress {P!r}")
+        if s.current_step is not None and bg != s.current_step:
+            bad.append(f"BG: {n} is in step {s.current_step!r} but begun is {bg!r}")
     return bad
 
 
@@ -136,7 +147,7 @@ def replay_schedule_step(m):
     bad = _check_pre(m, world, sims)
     sim = sims[m["sim"]]
     x = TieredTime(m["x"])
-    if bad or m["x"] < 0 or not sim.progress.time <= x or any(
+    if bad or m["x"] < 0 or not sim.progress.time <= x or (sim._verif_begun is not None and not sim._verif_begun < x) or any(
             not s.progress.time <= x + s.triggering_ancestors[sim] for s in sims.values() if sim in s.triggering_ancestors):
         return True, f"precondition does not hold natively ({bad})"
     before = snapshot(sims)
@@ -189,7 +200,8 @@ def replay_notify_dependencies(m):
                 if b in s.triggering_ancestors and (a not in s.triggering_ancestors or
                                                     not s.triggering_ancestors[a] <= dl + s.triggering_ancestors[b]):
                     bad = bad or "triggering_ancestors not closed under prepending a trigger edge"
-    if sim.current_step is not None or not sim.last_step <= sim.output_time or sim.last_step.time < 0:
+    if sim.current_step is not None or not sim.last_step <= sim.output_time or sim.last_step.time < 0 \
+            or sim.progress.time != sim.last_step:
         bad = bad or "region precondition (step done, output time >= step time) does not hold"
     for s in sims.values():
         if sim in s.triggering_ancestors and not s.progress.time <= sim.last_step + s.triggering_ancestors[sim]:
